@@ -1,9 +1,16 @@
-"""C04 — `check` raises no diagnostic on spec-valid operation documents (finite decision tables)."""
+"""C04 — `check` raises no diagnostic on spec-valid operation documents (finite decision tables).
+
+The tables are read by abstract evaluation over kinds (c03.KindEval): for each row the function is run with the type / value
+parameters fixed to one kind and the events on every path (recursive calls, diagnostics built, values returned) are compared with
+the spec.  The verdict therefore does not depend on how the control flow is spelled (`match`, `if let`, `let else`, `matches!`,
+early return, helper functions).  A row whose paths disagree, or whose value the evaluation cannot determine, is UNDECIDED.
+"""
 import harness
-from facts import (norm, call_name, short, subnodes, lit_value, matches_on, arm_variants, matches_on_type, lit_table,
-                   field_reads, peel_ty)
+from facts import norm, call_name, short, subnodes, lit_value
 from prov import Prov, has_field, has_call
-from templates import variant_table, first_match, iterator_reuse, enclosing_contexts
+from templates import iterator_reuse, enclosing_contexts, inlined, scope_fns
+from c03 import (KindEval, TooComplex, MProv, V, B_TRUE, B_FALSE, role_fn, decide, guard_exprs, ev_calls, ev_ctors, all_args, core_roles,
+                 same_job, source_nodes, verdict_of, anchors_present, _sig, T_TYPE, T_TYPEDEF, T_VALUE)
 
 CK = "nitrogql_checker::"
 A = "nitrogql_ast::"
@@ -18,160 +25,250 @@ SCALAR_LITERALS = {
 }
 KINDS = ("Named", "NonNull", "List")
 COMPOSITE = ("Object", "Interface", "Union")
+VALUE_KINDS = ["NullValue", "IntValue", "FloatValue", "StringValue", "BooleanValue", "EnumValue", "ListValue", "ObjectValue"]
+VD = A + "variable::VariableDefinition"
+
+
+def _idx(f, needle):
+    hits = [i for i, t in enumerate(_sig(f)) if needle in t]
+    return hits[0] if len(hits) == 1 else None
+
+
+def literal_row(P, f, ti, vi, kind, seeds=()):
+    """(accepted, rejected, unknown) literal kinds of is_value_compatible_type_def for an expected type of `kind`"""
+    acc, rej, unk = set(), set(), set()
+    for vk in VALUE_KINDS:
+        try:
+            res = KindEval(P, want=lambda ev: False, seeds=seeds).run(f, {ti: V(kind), vi: V(vk)})
+        except TooComplex:
+            res = []
+        firsts = {verdict_of(v) for v, _, _ in res}
+        if firsts == {B_TRUE}:
+            acc.add(vk)
+        elif firsts == {B_FALSE}:
+            rej.add(vk)
+        else:
+            unk.add(vk)
+    return acc, rej, unk
+
+
+def guarded_by(P, f, variant, pred):
+    """Is the construction of diagnostic `variant` in `f` (helpers inlined) decided by a condition whose provenance satisfies
+    `pred`?  True | False (sites and conditions seen, none satisfies) | None (no site)"""
+    g = inlined(P, f)
+    pv = MProv(g)
+    sites = [i for i, (x, _) in enumerate(g.nodes()) if x.get("k") == "Struct" and "rest" not in x and norm(x.get("variant", "")).endswith("::" + variant)]
+    if not sites:
+        return None
+    for i in sites:
+        if any(pred(pv.deep_atoms(ge)) for ge in guard_exprs(g, i)):
+            return True
+    return False
+
+
+def _required_unless_nullable_or_default(a):
+    return has_call(a, "is_nonnull") and any(x[0] == "field" and x[2] == "default_value" for x in a)
 
 
 def r04a(P, R):
-    f = P.fn(CK + "common::is_value_compatible_type_def")
-    ms = matches_on_type(f, "str")
-    R.floor("R04-a", "scalar-name match", len(ms), 1)
-    for m in ms:
-        rows = lit_table(m)
-        seen = {}
-        custom_ok = False
-        for lits, guard, catch, arm in rows:
-            accepted = set()
-            for inner in subnodes(arm["body"]):
-                if inner.get("k") == "Match" and "matches" in (inner.get("x") or ""):
-                    v, _ = arm_variants(inner)
-                    accepted |= v
-            for l in lits:
-                seen[l] = accepted
-            if catch:
-                custom_ok = any(x.get("k") == "Lit" and x.get("v") is True for x in subnodes(arm["body"]))
+    f = role_fn(P, CK + "common::is_value_compatible_type_def")
+    ti, vi = _idx(f, T_TYPEDEF), _idx(f, T_VALUE)
+    if ti is None or vi is None:
+        R.undecided("R04-a", "scalar-table", "the type / value parameters of %s were not identified" % short(f.path), loc=f.loc())
+    else:
         for name, want in sorted(SCALAR_LITERALS.items()):
-            got = seen.get(name)
-            if got is None:
-                R.violated("R04-a", "scalar:" + name, "built-in scalar %s has no row in the literal-compatibility table" % name, loc=f.loc())
-                continue
-            missing = want - got
-            extra = got - want - {"NullValue"}
-            R.check("R04-a", "scalar:" + name, not missing and not extra and "NullValue" in got,
-                    "%s accepts %s (+null)" % (name, sorted(want)),
-                    "literal kinds accepted for %s are %s; input coercion (spec §3.5) accepts %s plus null: %s"
-                    % (name, sorted(got), sorted(want), ("rejects valid " + str(sorted(missing))) if missing else ("accepts invalid " + str(sorted(extra)))),
-                    loc=f.loc())
-        R.check("R04-a", "scalar:custom", custom_ok, "custom scalars accept any literal (their coercion is server-defined)",
-                "custom scalars no longer accept arbitrary literals", loc=f.loc())
-    # enum / input object rows
-    for m in matches_on(f, "TypeDefinition"):
-        tab = variant_table(m)
-        enum_arm = tab.get("Enum")
-        if enum_arm:
-            inner = [x for x in subnodes(enum_arm["body"]) if x.get("k") == "Match" and x.get("src") == "Normal"]
-            ok = False
-            for im in inner:
-                t = variant_table(im)
-                if "NullValue" in t and "EnumValue" in t:
-                    ok = True
-            R.check("R04-a", "enum-literals", ok, "enum types accept enum literals and null", "enum typing does not accept {EnumValue, NullValue}", loc=f.loc())
-        io = tab.get("InputObject")
-        if io:
-            pv = Prov(f)
-            # missing optional field is fine: RequiredFieldNotSpecified only if non-null AND no default
-            sites = [(i, x) for i, (x, _) in enumerate(f.nodes()) if x.get("k") == "Struct" and "rest" not in x and norm(x.get("variant", "")).endswith("RequiredFieldNotSpecified")]
-            ok = False
-            for i, x in sites:
-                for c in enclosing_contexts(f, i):
-                    if c[0] == "if-then":
-                        names = {n_.get("method") for n_ in subnodes(c[1]["cond"]) if n_.get("k") == "MethodCall"}
-                        fields = {a[2] for a in pv.atoms(c[1]["cond"]) if a[0] == "field"}
-                        if "is_nonnull" in names and "default_value" in fields:
-                            ok = True
-            R.check("R04-a", "input-object-required", ok, "an omitted input field is an error only if non-null and without default",
-                    "RequiredFieldNotSpecified is not conditional on (non-null type AND no default value)", loc=f.loc())
+            acc, rej, unk = literal_row(P, f, ti, vi, "Scalar", seeds=[("str", ("s", name))])
+            want_all = want | {"NullValue"}
+            missing = want_all & rej
+            extra = acc - want_all
+            verdict = False if (missing or extra) else (True if not unk else None)
+            decide(R, "R04-a", "scalar:" + name, verdict,
+                   "%s accepts %s (+null)" % (name, sorted(want)),
+                   "literal kinds accepted for %s are %s; input coercion (spec §3.5) accepts %s plus null: %s"
+                   % (name, sorted(acc), sorted(want), ("rejects valid " + str(sorted(missing))) if missing else ("accepts invalid " + str(sorted(extra)))),
+                   "the verdict for %s literals %s could not be evaluated" % (name, sorted(unk)), loc=f.loc())
+        acc, rej, unk = literal_row(P, f, ti, vi, "Scalar", seeds=[("str", ("s", "\x00a scalar the schema defines"))])
+        decide(R, "R04-a", "scalar:custom", False if rej else (True if not unk else None),
+               "custom scalars accept any literal (their coercion is server-defined)",
+               "custom scalars reject literals of kind %s" % sorted(rej), "the verdict for custom scalars could not be evaluated", loc=f.loc())
+        # enum row
+        acc, rej, unk = literal_row(P, f, ti, vi, "Enum")
+        want_all = {"NullValue", "EnumValue"}
+        verdict = False if ((want_all & rej) or (acc - want_all)) else (True if not unk else None)
+        decide(R, "R04-a", "enum-literals", verdict, "enum types accept enum literals and null",
+               "enum typing accepts %s and rejects %s; it must accept exactly {EnumValue, NullValue}" % (sorted(acc), sorted(rej)),
+               "the verdict for enum literals %s could not be evaluated" % sorted(unk), loc=f.loc())
+    # missing optional input field is fine: RequiredFieldNotSpecified only if non-null AND no default
+    IV = "graphql_type_system::definitions::InputValue"
+    if anchors_present(P, R, "R04-a", "input-object-required", [(IV, "default_value")], ["is_nonnull"], loc=f.loc()):
+        decide(R, "R04-a", "input-object-required", guarded_by(P, f, "RequiredFieldNotSpecified", _required_unless_nullable_or_default),
+               "an omitted input field is an error only if non-null and without default",
+               "RequiredFieldNotSpecified is not conditional on (non-null type AND no default value)",
+               "RequiredFieldNotSpecified is not built in %s" % short(f.path), loc=f.loc())
     # required arguments: same condition in check_arguments
-    ca = P.fn(CK + "common::check_arguments")
-    pv = Prov(ca)
-    sites = [(i, x) for i, (x, _) in enumerate(ca.nodes()) if x.get("k") == "Struct" and "rest" not in x and norm(x.get("variant", "")).endswith("RequiredArgumentNotSpecified")]
-    R.floor("R04-a", "required-argument diagnostics", len(sites), 1)
-    reads = field_reads(ca)
-    ok = any(k[1] == "default_value" for k in reads) and any(x.get("k") == "MethodCall" and x["method"] == "is_nonnull" for x in ca.walk())
-    R.check("R04-a", "argument-required", ok, "an omitted argument is an error only if non-null and without default",
-            "check_arguments does not consider nullability and default value before reporting a missing argument", loc=ca.loc())
+    ca = role_fn(P, CK + "common::check_arguments")
+    if anchors_present(P, R, "R04-a", "argument-required", [(IV, "default_value")], ["is_nonnull"], loc=ca.loc()):
+        decide(R, "R04-a", "argument-required", guarded_by(P, ca, "RequiredArgumentNotSpecified", _required_unless_nullable_or_default),
+               "an omitted argument is an error only if non-null and without default",
+               "check_arguments does not consider nullability and default value before reporting a missing argument",
+               "RequiredArgumentNotSpecified is not built in %s" % short(ca.path), loc=ca.loc())
 
 
 def r04b(P, R):
-    f = P.fn(CK + "common::check_value")
-    outer = [m for m in matches_on(f, "Type") if len(m["arms"]) >= 3]
-    R.floor("R04-b", "wrapper match in check_value", len(outer), 1)
-    m = outer[0]
-    tab = variant_table(m)
-    R.check("R04-b", "wrapper-kinds", set(tab) == set(KINDS), "Named/NonNull/List all handled", "check_value handles wrappers %s" % sorted(tab), loc=f.loc())
-    VALUE_KINDS = ["NullValue", "IntValue", "FloatValue", "StringValue", "BooleanValue", "EnumValue", "ListValue", "ObjectValue"]
+    f = role_fn(P, CK + "common::check_value")
+    ivc = role_fn(P, CK + "common::is_value_compatible_type_def")
+    ctc = role_fn(P, CK + "common::check_type_compatibility")
+    vi, ti = _idx(f, T_VALUE), _idx(f, T_TYPE)
+    if vi is None or ti is None:
+        R.undecided("R04-b", "table", "the value / type parameters of %s were not identified" % short(f.path), loc=f.loc())
+        return
 
-    def action(arm_body):
-        """'mismatch' if the arm yields literal true, 'recurse' if it calls check_value and yields false, 'ok' for plain false"""
-        calls = [x for x in subnodes(arm_body) if x.get("k") == "Call" and (call_name(x) or "") == f.path]
-        bools = [x.get("v") for x in subnodes(arm_body) if x.get("k") == "Lit" and x.get("lk") == "bool"]
-        if calls and bools[-1:] == [False]:
-            return "recurse"
-        if bools == [True]:
+    def enter(g):
+        # pieces split off check_value (the variable branch, the literal branch) are part of the table
+        return True if same_job(f, g) else None
+
+    def want(ev):
+        return (ev[0] in ("call", "enter") and ev[1] in (f.path, ivc.path, ctc.path)) or (ev[0] == "ctor" and ev[1].split("::")[-1] in ("TypeMismatch", "UnknownVariable")) \
+            or (ev[0] == "call" and ev[1].startswith(CK))
+
+    def run(w, vk):
+        E = KindEval(P, want=want, enter=enter)
+        return E, E.run(f, {vi: V(vk), ti: V(w)})
+
+    def action(paths, vk):
+        mism = [bool(ev_ctors(evs, "TypeMismatch")) for _, evs, _ in paths]
+        rec = []
+        for _, evs, _ in paths:
+            calls = ev_calls(evs, f.path)
+            rec.append(bool(calls) and (vk == "ListValue" or all(c[3] is not None and vi < len(c[3]) and c[3][vi] == V(vk) for c in calls)))
+        anyrec = [bool(ev_calls(evs, f.path)) for _, evs, _ in paths]
+        if not paths:
+            return "?"
+        if all(mism) and not any(anyrec):
             return "mismatch"
-        if bools == [False]:
+        if not any(mism) and (all(rec) or (vk == "ListValue" and any(rec))):
+            return "recurse"
+        if not any(mism) and not any(anyrec):
             return "ok"
         return "?"
-    for wrapper, want in (("NonNull", {"NullValue": "mismatch", "*": "recurse"}),
-                          ("List", {"ListValue": "recurse", "NullValue": "ok", "*": "recurse"})):
-        arm = tab.get(wrapper)
-        if arm is None:
+    try:
+        # named types are typed against their definition
+        _, paths = run("Named", "IntValue")
+        decide(R, "R04-b", "wrapper-kinds", any(ev_calls(evs, ivc.path) for _, evs, _ in paths) if paths else None,
+               "a literal for a named type is typed against the type's definition",
+               "check_value never calls is_value_compatible_type_def for a named type", "no path evaluated", loc=f.loc())
+        for wrapper, wantd in (("NonNull", {"NullValue": "mismatch", "*": "recurse"}),
+                               ("List", {"ListValue": "recurse", "NullValue": "ok", "*": "recurse"})):
+            for vk in VALUE_KINDS:
+                _, paths = run(wrapper, vk)
+                got = action(paths, vk)
+                exp = wantd.get(vk, wantd["*"])
+                decide(R, "R04-b", "table:%s x %s" % (wrapper, vk), None if got == "?" else got == exp,
+                       "%s x %s -> %s" % (wrapper, vk, got),
+                       "check_value decides (%s type, %s literal) as `%s`; input coercion requires `%s` (%s)"
+                       % (wrapper, vk, got, exp, "null is valid for any nullable type; a non-list value coerces to a one-element list"),
+                       "the paths of check_value for (%s type, %s literal) disagree (%d paths)" % (wrapper, vk, len(paths)), loc=f.loc())
+        # variables: compatibility instead of literal typing, unknown variable reported
+        verdicts, why = [], ""
+        for w in KINDS:
+            E, paths = run(w, "Variable")
+            for _, evs, _ in paths:
+                entered = {e[1] for e in evs if e[0] == "enter"}
+                if ev_calls(evs, ivc.path) or ev_calls(evs, f.path):
+                    verdicts.append(False)
+                    why = "a variable in a %s position is typed as if it were a literal" % w
+                elif ev_ctors(evs, "UnknownVariable") or ev_calls(evs, ctc.path):
+                    verdicts.append(True)
+                elif any(e[0] == "call" and e[1].startswith(CK) and e[1] not in entered for e in evs):
+                    verdicts.append(None)
+                else:
+                    verdicts.append(False)
+                    why = why or "for a variable in a %s position there is a path that neither reports an unknown variable nor calls check_type_compatibility" % w
+        v = False if False in verdicts else (None if (None in verdicts or not verdicts) else True)
+        decide(R, "R04-b", "variable-branch", v, "variables are checked by type compatibility with their definition",
+               "check_value does not treat variables through check_type_compatibility: %s" % why,
+               "a path for variables hands over to a function the evaluation did not enter", loc=f.loc())
+    except TooComplex as ex:
+        R.undecided("R04-b", "table", "abstract evaluation of %s gave up: %s" % (short(f.path), ex), loc=f.loc())
+
+
+def compat_site(P):
+    """the call of check_type_compatibility made for a variable usage: (caller, call node, index of the location-type argument,
+    index of the variable-type argument) — the location argument is the one that derives from the caller's own type parameter"""
+    cv = role_fn(P, CK + "common::check_value")
+    ctc = role_fn(P, CK + "common::check_type_compatibility")
+    for g in scope_fns(P, cv, 2):
+        if g.path == ctc.path:
             continue
-        inner = [x for x in subnodes(arm["body"]) if x.get("k") == "Match" and x.get("src") == "Normal" and peel_ty(x["scrut"].get("t", "")).endswith("value::Value")]
-        if not inner:
-            R.undecided("R04-b", "table:" + wrapper, "no inner match over the value", loc=f.loc())
-            continue
-        im = inner[0]
-        for vk in VALUE_KINDS:
-            idx = first_match(im, vk)
-            got = action(im["arms"][idx]["body"]) if idx is not None else "none"
-            exp = want.get(vk, want["*"])
-            R.check("R04-b", "table:%s x %s" % (wrapper, vk), got == exp,
-                    "%s x %s -> %s" % (wrapper, vk, got),
-                    "check_value decides (%s type, %s literal) as `%s`; input coercion requires `%s` (%s)"
-                    % (wrapper, vk, got, exp, "null is valid for any nullable type; a non-list value coerces to a one-element list"),
-                    loc=f.loc())
-    # variables: compatibility instead of literal typing, unknown variable reported
-    pv = Prov(f)
-    R.check("R04-b", "variable-branch", has_call(pv.atoms(f.body), "common::check_type_compatibility") and has_call(pv.atoms(f.body), "common::get_variable_definition"),
-            "variables are checked by type compatibility with their definition", "check_value does not treat variables through check_type_compatibility", loc=f.loc())
+        for c in g.walk():
+            if c.get("k") in ("Call", "MethodCall") and call_name(c) == ctc.path:
+                pv = MProv(g)
+                tnames = {pv.params.get(p["local"]) for p, t in zip(g.params, _sig(g)) if p.get("k") == "Binding" and T_TYPE in t}
+                args = all_args(c)
+                from_param = [i for i, a in enumerate(args) if any(("param", nm) in pv.atoms(a) for nm in tnames)]
+                if len(args) == 2 and len(from_param) == 1:
+                    return g, c, from_param[0], 1 - from_param[0]
+    return None
 
 
 def r04c(P, R):
     """IsVariableUsageAllowed / AreTypesCompatible as decision tables"""
-    f = P.fn(CK + "common::check_value")
-    reads = field_reads(f)
-    R.check("R04-c", "variable-default-considered", (A + "variable::VariableDefinition", "default_value") in reads,
-            "the variable's default value takes part in IsVariableUsageAllowed",
-            "check_value never reads VariableDefinition.default_value: a nullable variable with a default cannot be allowed in a non-null position",
-            loc=f.loc())
-    # only a *non-null* default relaxes, and only for a nullable variable in a non-null location
-    pv = Prov(f)
-    calls = {x["method"] for x in f.walk() if x.get("k") == "MethodCall"}
-    R.check("R04-c", "variable-default-nonnull", "is_null" in calls and "is_nonnull" in calls, "relaxation requires a non-null default and a nullable variable type",
-            "the default-value relaxation does not test `default is not null` and `variable type is nullable`", loc=f.loc())
-    g = P.fn(CK + "common::check_type_compatibility")
-    ms = [m for m in g.walk() if m.get("k") == "Match" and m.get("src") == "Normal" and m["scrut"].get("k") == "Tup" and not m.get("x")]
-    R.floor("R04-c", "compatibility match", len(ms), 1)
-    m = ms[0]
-    pvg = Prov(g)
-    # which tuple element is `expected`?
-    order = [sorted(x[1] for x in pvg.atoms(e) if x[0] == "param") for e in m["scrut"]["es"]]
-    exp_first = order[0] == ["expected_type"]
-    R.check("R04-c", "scrutinee-order", order in ([["expected_type"], ["value_type"]], [["value_type"], ["expected_type"]]), "scrutinee is (expected, value)",
-            "scrutinee order is %s" % order, loc=g.loc())
+    f = role_fn(P, CK + "common::check_value")
+    g = role_fn(P, CK + "common::check_type_compatibility")
+    site = compat_site(P)
+    if site is None:
+        R.undecided("R04-c", "variable-usage", "no call of check_type_compatibility whose location argument derives from the expected type was found "
+                    "below %s" % short(f.path), loc=f.loc())
+        return
+    caller, call, ei, wi = site
+    if anchors_present(P, R, "R04-c", "variable-default", [(VD, "default_value"), (VD, "type")], loc=caller.loc()):
+        pv = MProv(caller)
+        loc_arg = all_args(call)[ei]
+        a = pv.deep_atoms(loc_arg)
+        R.check("R04-c", "variable-default-considered", has_field(a, VD, "default_value"),
+                "the variable's default value takes part in IsVariableUsageAllowed",
+                "the location type handed to check_type_compatibility never depends on VariableDefinition.default_value: a nullable variable "
+                "with a default cannot be allowed in a non-null position", loc=caller.loc())
+        # only a *non-null* default relaxes, and only for a nullable variable in a non-null location: something in the computation
+        # of the location type must look at the null-ness of the default, and at the variable's own type
+        nodes = source_nodes(P, pv, loc_arg)
+        null_test = any((y.get("k") == "MethodCall" and y.get("method") == "is_null") or norm(y.get("ctor_of") or "").endswith("value::Value::NullValue")
+                        for y in nodes)
+        nullable_test = has_field(a, VD, "type")
+        R.check("R04-c", "variable-default-nonnull", null_test and nullable_test, "relaxation requires a non-null default and a nullable variable type",
+                "the default-value relaxation does not test %s"
+                % " and ".join(w for w, ok in (("`default is not null`", null_test), ("`variable type is nullable`", nullable_test)) if not ok),
+                loc=caller.loc())
+    # AreTypesCompatible(variableType, locationType) over (location kind, variable kind)
+    pvg = MProv(g)
+    names = [pvg.params.get(p["local"]) if p.get("k") == "Binding" else None for p in g.params]
 
-    def act(arm):
-        body = arm["body"]
-        rec = [x for x in subnodes(body) if x.get("k") == "Call" and (call_name(x) or "") == g.path]
+    def shape(arg, i):
+        e = arg
+        while e.get("k") in ("AddrOf", "DropTemps", "Use") or (e.get("k") == "Unary" and e.get("op") == "Deref"):
+            e = e["e"]
+        if e.get("k") == "Path" and g.params[i].get("k") == "Binding" and e.get("local") == g.params[i].get("local"):
+            return "whole"
+        ps = {x[1] for x in pvg.atoms(arg) if x[0] == "param"}
+        return "inner" if ps == {names[i]} else ("swapped" if (ps and names[i] not in ps) else "other")
+
+    def act(val, evs, src, E):
+        rec = ev_calls(evs, g.path)
         if rec:
-            a0 = {x[1] for x in pvg.atoms(rec[0]["args"][0]) if x[0] == "param"}
-            a1 = {x[1] for x in pvg.atoms(rec[0]["args"][1]) if x[0] == "param"}
-            a1n = rec[0]["args"][1]
-            whole1 = a1n.get("k") == "Path" and len(g.params) > 1 and a1n.get("local") == g.params[1].get("local")
-            return "rec-strip-value" if whole1 else "rec-both"
-        v = lit_value(body if body.get("k") != "BlockExpr" else (body["b"].get("tail") or {}))
-        if v is False:
+            node = E.event_node(rec[0])[0]
+            args = all_args(node)
+            if len(args) != 2:
+                return "?"
+            s = (shape(args[wi], wi), shape(args[ei], ei))
+            if "swapped" in s:
+                return "rec-swapped"     # a component of one type is passed in the other type's position
+            return {("inner", "inner"): "rec-both", ("inner", "whole"): "rec-strip-value", ("whole", "inner"): "rec-strip-location",
+                    ("whole", "whole"): "rec-unchanged"}.get(s, "?")
+        if val == B_FALSE:
             return "false"
-        if any(x.get("k") == "Binary" and x.get("op") == "==" for x in subnodes(body)):
+        if val == B_TRUE:
+            return "true"
+        if src is not None and src.get("k") == "Binary" and src.get("op") == "==" and {names[0], names[1]} <= {x[1] for x in pvg.atoms(src) if x[0] == "param"}:
             return "name-eq"
         return "?"
     # oracle over (expected kind, value kind) — spec AreTypesCompatible(variableType, locationType)
@@ -181,21 +278,23 @@ def r04c(P, R):
         ("List", "Named"): "false", ("Named", "List"): "false", ("Named", "Named"): "name-eq",
     }
     for (ek, vk), want in sorted(oracle.items()):
-        val = (ek, vk) if exp_first else (vk, ek)
-        idx = first_match(m, val)
-        got = act(m["arms"][idx]) if idx is not None else "none"
-        R.check("R04-c", "compat:(expected %s, variable %s)" % (ek, vk), got == want, "-> %s" % got,
-                "check_type_compatibility decides (location %s, variable %s) with `%s` (arm %s, first match wins); AreTypesCompatible requires `%s`"
-                % (ek, vk, got, idx, want), loc=g.loc())
+        try:
+            E = KindEval(P, want=lambda ev: ev[0] == "call" and ev[1] == g.path)
+            paths = E.run(g, {ei: V(ek), wi: V(vk)})
+            got = sorted({act(val, evs, src, E) for val, evs, src in paths})
+        except TooComplex:
+            got = ["?"]
+        verdict = None if (len(got) != 1 or got[0] == "?") else got[0] == want
+        decide(R, "R04-c", "compat:(expected %s, variable %s)" % (ek, vk), verdict, "-> %s" % want,
+               "check_type_compatibility decides (location %s, variable %s) with `%s`; AreTypesCompatible requires `%s`"
+               % (ek, vk, "/".join(got), want),
+               "the action for (location %s, variable %s) could not be evaluated (%s)" % (ek, vk, "/".join(got) or "no path"), loc=g.loc())
 
 
 def r04d(P, R):
     """fragment applicability: every composite (scope, condition) pair has its own overlap test; no catch-all swallows a pair"""
-    f = P.fn(CK + "operation_checker::check_fragment_spread_core")
-    ms = [m for m in f.walk() if m.get("k") == "Match" and m.get("src") == "Normal" and m["scrut"].get("k") == "Tup" and not m.get("x")]
-    R.floor("R04-d", "applicability match", len(ms), 1)
-    m = ms[0]
-    pv = Prov(f)
+    f, ri, ci = core_roles(P)
+    css = role_fn(P, CK + "operation_checker::check_selection_set")
     TSD = "graphql_type_system::definitions::"
     want_reads = {
         ("Object", "Object"): [("ObjectDefinition", "name")],
@@ -206,35 +305,72 @@ def r04d(P, R):
         ("Union", "Interface"): [("UnionDefinition", "possible_types"), ("ObjectDefinition", "interfaces")],
         ("Union", "Union"): [("UnionDefinition", "possible_types")],
     }
-    for a in COMPOSITE:
-        for b in COMPOSITE:
-            idx = first_match(m, (a, b))
-            arm = m["arms"][idx] if idx is not None else None
-            reports = arm is not None and any(x.get("k") == "Struct" and norm(x.get("variant", "")).endswith("FragmentConditionNeverMatches") for x in subnodes(arm["body"]))
-            conditional = arm is not None and any(x.get("k") == "If" for x in subnodes(arm["body"]))
-            atoms = pv.atoms(arm["body"]) if arm else set()
-            reads_ok = all(any(x[0] == "field" and x[1] == TSD + adt and x[2] == fld for x in atoms) for adt, fld in want_reads[(a, b)])
-            R.check("R04-d", "applicability:(%s, %s)" % (a, b), reports and conditional and reads_ok,
-                    "dedicated overlap test on %s" % [w[1] for w in want_reads[(a, b)]],
-                    "fragment applicability for (scope %s, condition %s) falls into arm %s which %s: %s"
-                    % (a, b, idx, "reports unconditionally" if reports and not conditional else ("has no overlap test" if not reports else "tests the wrong component"),
-                       "a valid spread is rejected or an impossible one accepted"), loc=f.loc())
+    if ri is None:
+        R.undecided("R04-d", "applicability", "the enclosing-type / type-condition parameters of %s could not be told apart" % short(f.path), loc=f.loc())
+    else:
+        provs = {}
+        for a in COMPOSITE:
+            for b in COMPOSITE:
+                key = "applicability:(%s, %s)" % (a, b)
+                try:
+                    E = KindEval(P, want=lambda ev: ev[0] == "assume" or (ev[0] == "ctor" and ev[1].endswith("::FragmentConditionNeverMatches")),
+                                 enter=lambda g_: True if same_job(f, g_) else None)
+                    paths = E.run(f, {ri: V(a), ci: V(b)})
+                except TooComplex as ex:
+                    R.undecided("R04-d", key, "abstract evaluation gave up: %s" % ex, loc=f.loc())
+                    continue
+                reporting = [evs for _, evs, _ in paths if ev_ctors(evs, "FragmentConditionNeverMatches")]
+                silent = [evs for _, evs, _ in paths if not ev_ctors(evs, "FragmentConditionNeverMatches")]
+                atoms = set()
+                for evs in reporting:
+                    for e in evs:
+                        if e[0] == "assume":
+                            node, fn = E.event_node(e)
+                            if fn.path not in provs:
+                                provs[fn.path] = MProv(fn)
+                            atoms |= provs[fn.path].deep_atoms(node)
+                if not anchors_present(P, R, "R04-d", key, [(TSD + adt, fld) for adt, fld in want_reads[(a, b)]], loc=f.loc()):
+                    continue
+                reads_ok = all(any(x[0] == "field" and x[1] == TSD + adt and x[2] == fld for x in atoms) for adt, fld in want_reads[(a, b)])
+                R.check("R04-d", key, bool(reporting) and bool(silent) and reads_ok,
+                        "dedicated overlap test on %s" % [w[1] for w in want_reads[(a, b)]],
+                        "fragment applicability for (scope %s, condition %s) %s: %s"
+                        % (a, b, "has no path that reports FragmentConditionNeverMatches" if not reporting else
+                           ("reports FragmentConditionNeverMatches on every path" if not silent else
+                            "is decided by conditions that never read %s" % [w for w in want_reads[(a, b)] if not any(x[0] == "field" and x[1] == TSD + w[0] and x[2] == w[1] for x in atoms)]),
+                           "a valid spread is rejected or an impossible one accepted"), loc=f.loc())
     # after the applicability test the fragment's selections are checked against the *condition* type
-    calls = [c for c in f.walk() if c.get("k") == "Call" and (call_name(c) or "").endswith("operation_checker::check_selection_set")]
-    ok = bool(calls) and ("param", "fragment_condition") in pv.atoms(calls[-1]["args"][3]) and ("param", "root_type") not in pv.atoms(calls[-1]["args"][3])
-    R.check("R04-d", "narrowed-parent", ok, "selections inside a fragment are checked against the fragment's type condition",
-            "the fragment body is not checked against the (narrowed) condition type", loc=f.loc())
+    pv = MProv(f)
+    names = [pv.params.get(p["local"]) if p.get("k") == "Binding" else None for p in f.params]
+    ti = [i for i, t in enumerate(_sig(css)) if T_TYPEDEF in t]
+    calls = [c for c in f.walk() if c.get("k") in ("Call", "MethodCall") and call_name(c) == css.path]
+    if not calls or ri is None or len(ti) != 1:
+        R.undecided("R04-d", "narrowed-parent", "no direct call of the selection checker in %s" % short(f.path), loc=f.loc())
+    else:
+        a = pv.atoms(all_args(calls[-1])[ti[0]])
+        has_c, has_r = ("param", names[ci]) in a, ("param", names[ri]) in a
+        decide(R, "R04-d", "narrowed-parent", True if (has_c and not has_r) else (False if not has_c else None),
+               "selections inside a fragment are checked against the fragment's type condition",
+               "the fragment body is not checked against the (narrowed) condition type", "the parent type handed down derives from both types", loc=f.loc())
     # inline fragment without type condition keeps the parent type
-    g = P.fn(CK + "operation_checker::check_inline_fragment")
-    pvg = Prov(g)
-    for mm in g.walk():
-        if mm.get("k") == "Match" and mm.get("src") == "Normal":
-            tab = variant_table(mm)
-            if "None" in tab:
-                cs = [c for c in subnodes(tab["None"]["body"]) if c.get("k") == "Call" and (call_name(c) or "").endswith("check_selection_set")]
-                ok = bool(cs) and ("param", "root_type") in pvg.atoms(cs[0]["args"][3])
-                R.check("R04-d", "inline-no-condition", ok, "`... { }` without type condition is checked against the enclosing type",
-                        "an inline fragment without type condition is not checked against the enclosing type", loc=g.loc())
+    g = role_fn(P, CK + "operation_checker::check_inline_fragment")
+    pvg = MProv(g)
+    conds = [x for x in g.walk() if x.get("k") == "Field" and x.get("field") == "type_condition" and norm(x.get("adt") or "").endswith("selection_set::InlineFragment")]
+    roots = {pvg.params.get(p["local"]) for p, t in zip(g.params, _sig(g)) if p.get("k") == "Binding" and T_TYPEDEF in t}
+    verdict, und = None, "check_inline_fragment does not read InlineFragment.type_condition directly"
+    if conds and roots and len(ti) == 1:
+        try:
+            E = KindEval(P, want=lambda ev: ev[0] == "call" and ev[1] == css.path, force={id(x): V("None") for x in conds})
+            paths = E.run(g)
+            oks = []
+            for _, evs, _ in paths:
+                cs = ev_calls(evs, css.path)
+                oks.append(bool(cs) and all(any(("param", r) in pvg.atoms(all_args(E.event_node(c)[0])[ti[0]]) for r in roots) for c in cs))
+            verdict = all(oks) if oks else None
+        except TooComplex as ex:
+            und = "abstract evaluation gave up: %s" % ex
+    decide(R, "R04-d", "inline-no-condition", verdict, "`... { }` without type condition is checked against the enclosing type",
+           "an inline fragment without type condition is not checked against the enclosing type", und, loc=g.loc())
     fns = [x for x in P.fns.values() if x.path.startswith((CK + "operation_checker", CK + "common", CK + "types"))]
     n = iterator_reuse(P, R, "R04-d", fns)
     R.holds("R04-d", "iter-reuse:none", "%d iterator locals in the checker, none consumed by two partial consumers" % n)
@@ -242,21 +378,31 @@ def r04d(P, R):
 
 def r04e(P, R):
     """__typename is selectable; subscriptions: one root field counted through fragments"""
-    d = P.fn("nitrogql_semantics::direct_fields_of_output_type::get_typename_meta_field")
+    d = role_fn(P, "nitrogql_semantics::direct_fields_of_output_type::get_typename_meta_field")
     lits = [x.get("v") for x in d.walk() if x.get("k") == "Lit" and x.get("lk") == "str"]
     R.check("R04-e", "typename-meta-field", "__typename" in lits and "String" in lits, "__typename: String! meta field",
             "the __typename meta field is not defined as `__typename: String!`", loc=d.loc())
     c = P.fn(CK + "operation_checker::count_selection_set_fields::selection_set_has_more_than_one_fields")
-    cmp_ = [x for x in c.walk() if x.get("k") == "Binary" and x.get("op") in (">", ">=", "!=", "==", "<")]
-    ok = len(cmp_) == 1 and cmp_[0]["op"] == ">" and lit_value(cmp_[0]["r"]) == "1"
-    R.check("R04-e", "subscription-threshold", ok, "more than one root field", "the single-root-field rule compares with %s"
-            % ([(x["op"], lit_value(x["r"])) for x in cmp_]), loc=c.loc())
+    cmp_ = [x for x in c.walk() if x.get("k") == "Binary" and x.get("op") in (">", ">=", "!=", "==", "<", "<=")]
+    # "more than one": n > 1, n >= 2, 1 < n, 2 <= n
+    forms = []
+    for x in cmp_:
+        l, r = lit_value(x["l"]), lit_value(x["r"])
+        if r is not None and l is None:
+            forms.append((x["op"], str(r)))
+        elif l is not None and r is None:
+            forms.append(({">": "<", "<": ">", ">=": "<=", "<=": ">="}.get(x["op"], x["op"]), str(l)))
+    good = {(">", "1"), (">=", "2")}
+    verdict = None
+    if len(forms) == 1 and len(cmp_) == 1:
+        verdict = forms[0] in good if forms[0][0] in (">", ">=", "<", "<=", "==", "!=") else None
+    decide(R, "R04-e", "subscription-threshold", verdict, "more than one root field", "the single-root-field rule compares with %s" % forms,
+           "the comparison(s) %s in %s are not of a form this rule reads" % ([x["op"] for x in cmp_], short(c.path)), loc=c.loc())
 
 
 def r04f(P, R):
     """name spaces: operation names are unique among operations, fragment names among fragments — an operation and a fragment may
     share a name (spec 5.2.1.1 / 5.5.1.1)"""
-    from templates import enclosing_contexts
     e = P.fn(CK + "operation_checker::check_operation_document")
     pv = Prov(e)
     OD, FD = A + "operation::OperationDefinition", A + "operation::FragmentDefinition"
@@ -264,11 +410,11 @@ def r04f(P, R):
         sites = [i for i, (x, _) in enumerate(e.nodes()) if x.get("k") == "Struct" and "rest" not in x and norm(x.get("variant", "")).endswith(variant)]
         R.floor("R04-f", variant + " sites", len(sites), 1)
         for i in sites:
-            guards = [c for c in enclosing_contexts(e, i) if c[0] in ("if-then", "let-else")]
+            guards = [c for c in enclosing_contexts(e, i) if c[0] in ("if-then", "let-else") or (c[0] == "arm" and c[1] is not None)]
             if not guards:
                 R.undecided("R04-f", "namespace:" + variant, "no guard found", loc=e.loc())
                 continue
-            g = guards[0][1]["cond"] if guards[0][0] == "if-then" else guards[0][1].get("init")
+            g = guards[0][1]["cond"] if guards[0][0] == "if-then" else (guards[0][1].get("init") if guards[0][0] == "let-else" else guards[0][1]["scrut"])
             # fields of the *earlier* definition that the search predicate reads, callee bodies included
             reads = {}
             todo, seen = [g], set()
@@ -287,10 +433,12 @@ def r04f(P, R):
             # the current definition's own name is read through its binding (outside the predicate); what matters is that the
             # predicate never consults the *other* kind's name
             bad = "name" in reads.get(other, set())
-            R.check("R04-f", "namespace:" + variant, "name" in reads.get(own, set()) and not bad,
-                    "%s compares names of %s only" % (variant, own.split("::")[-1]),
-                    "%s is raised by a search that also compares against the names of %s: `fragment User ...` followed by `query User ...` "
-                    "is rejected although operations and fragments live in separate name spaces" % (variant, other.split("::")[-1]), loc=e.loc())
+            verdict = False if bad else (True if "name" in reads.get(own, set()) else None)
+            decide(R, "R04-f", "namespace:" + variant, verdict,
+                   "%s compares names of %s only" % (variant, own.split("::")[-1]),
+                   "%s is raised by a search that also compares against the names of %s: `fragment User ...` followed by `query User ...` "
+                   "is rejected although operations and fragments live in separate name spaces" % (variant, other.split("::")[-1]),
+                   "the search that decides %s reads no definition name the rule can see" % variant, loc=e.loc())
 
 
 def _r03c(P, R):
@@ -302,15 +450,16 @@ def _r03c(P, R):
 
 RULES = [("R04-a", r04a), ("R04-b", r04b), ("R04-c", r04c), ("R04-d", r04d), ("R04-e", r04e), ("R04-f", r04f), ("R03-c", _r03c)]
 EXPLANATION = (
-    "False-alarm freedom decided on finite tables read out of the code and compared with the GraphQL spec: (R04-a) literal kinds accepted "
-    "per built-in scalar (Int literal for Float/ID), enum and input-object rows, required-ness = non-null and no default; (R04-b) the "
-    "(wrapper type x literal kind) table of check_value evaluated with first-match semantics: null valid for nullable types, a "
-    "non-list value coerces to a one-element list; (R04-c) IsVariableUsageAllowed reads the variable's default, and the nine "
-    "(location kind, variable kind) cases of AreTypesCompatible hit arms with the required action in arm order; (R04-d) each of the "
-    "nine composite (scope, condition) pairs has a dedicated conditional overlap test reading the right components, bodies are checked "
-    "against the narrowed type, no iterator is consumed by two partial consumers; (R04-e) __typename meta field, subscription "
-    "threshold. Not decided: value-dependent parts (possible-type overlap computed from a concrete schema, imported fragments).")
-ASSUMPTIONS = ["GraphQL spec (October 2021) §3.5, §5.8.5 transcribed by hand", "first-match semantics of Rust `match` (patterns evaluated on abstract kinds)"]
+    "False-alarm freedom decided on finite tables read out of the code by abstract evaluation over kinds and compared with the GraphQL "
+    "spec: (R04-a) literal kinds accepted per built-in scalar (Int literal for Float/ID), enum and input-object rows, required-ness = "
+    "non-null and no default; (R04-b) the (wrapper type x literal kind) table of check_value: null valid for nullable types, a "
+    "non-list value coerces to a one-element list, variables go through type compatibility; (R04-c) IsVariableUsageAllowed depends on "
+    "the variable's default, and the nine (location kind, variable kind) cases of AreTypesCompatible take the required action; "
+    "(R04-d) each of the nine composite (scope, condition) pairs has a conditional overlap test deciding on the right components, bodies "
+    "are checked against the narrowed type, no iterator is consumed by two partial consumers; (R04-e) __typename meta field, "
+    "subscription threshold. Not decided: value-dependent parts (possible-type overlap computed from a concrete schema, imported fragments).")
+ASSUMPTIONS = ["GraphQL spec (October 2021) §3.5, §5.8.5 transcribed by hand",
+               "abstract evaluation over kinds over-approximates the paths of the evaluated functions (loops: 0 or 1 iteration)"]
 
 
 def main(tier):
